@@ -4,6 +4,7 @@
 //!   mc replay <file>                        exit 1 if the recorded violation reproduces, else 0
 
 mod driver;
+mod chain;
 mod engine;
 mod exch;
 mod exch_run;
